@@ -59,6 +59,8 @@ Verifies(chall, verifier) ==      \* chall: "none" | "plain:v" | "s256:v" ; veri
 
 World == [clients |-> [c \in Clients |-> [auth |-> Reg[c].auth, app |-> Reg[c].app,
                                           grants |-> Reg[c].grants, rtypes |-> Reg[c].rtypes,
-                                          uris |-> Reg[c].uris, postLogout |-> Reg[c].postLogout, at |-> Reg[c].at]],
+                                          uris |-> Reg[c].uris, postLogout |-> Reg[c].postLogout, at |-> Reg[c].at,
+                                          \* IDTokenUserinfoClaimsAssertion: the client wants the user claims in the ID token even when an access token is issued
+                                          assert |-> c \in {"cx", "cn"}]],
           users |-> Users, uris |-> URIs]
 =============================================================================
